@@ -46,7 +46,7 @@ COMPONENTS = {
     "oracle": ["list-of-records reference model", "refavro.normal_eq / parse_container (second opinion)"],
 }
 PROBES = ["failed_write_with_pending", "failed_write_first_after_create", "failed_write_validator_on",
-          "write_block_with_pending", "append_after_empty_flush", "append_different_args",
+          "write_block_with_pending", "append_after_empty_flush", "append_different_args", "append_revised_schema",
           "zero_byte_records_only", "donor_codec_differs", "block_reused", "block_pre_iterated",
           "foreign_donor", "large_record", "real_file", "foreign_start", "header_gt_64k"]
 
@@ -354,22 +354,30 @@ def _history(F, ch, ctx, st):
             if last == "empty_flush" or not model.records:
                 ctx.probe("append_after_empty_flush")
             fo = st.reopen()
-            how = ch.draw(3)
+            how = ch.draw(4)
             rs = None if how == 0 else (schema if how == 1 else _unrelated_schema(ch))
+            if how == 3:
+                # a later revision of the file's own schema: same names, other definitions
+                rs = common.revised_schema(ch, schema)
+                try:
+                    F.parse_schema(json.loads(json.dumps(rs)))
+                    ctx.probe("append_revised_schema")
+                except Exception:  # noqa -- the revision happens not to be a valid schema
+                    rs = None
             rk = dict(codec=ch.pick(common.CODECS), sync_interval=common.draw_sync_interval(ch, sizes * 2),
                       validator=validator)
             if ch.chance(50):
                 rk["sync_marker"] = ch.bytes(16)
             if ch.chance(50):
                 rk["metadata"] = {"other": "meta", "avro.codec": "deflate"} if ch.chance(30) else {"a": "b"}
-            if how == 2 or rk["codec"] != codec or "sync_marker" in rk:
+            if how >= 2 or rk["codec"] != codec or "sync_marker" in rk:
                 ctx.probe("append_different_args")
             ctx.fault("restart")
             try:
                 w = F.write.Writer(fo, rs, **rk)
             except Exception as e:  # noqa
                 raise Violation("reopen", "append-reopen-raises", detail={"exc": jsonable(e), "args": jsonable(rk), "schema": rs, "ops": ops}, scenario=desc)
-            ops.append({"op": "reopen", "schema": "None" if rs is None else ("same" if how == 1 else "unrelated"),
+            ops.append({"op": "reopen", "schema": "None" if rs is None else ("same" if how == 1 else ("unrelated" if how == 2 else rs)),
                         "codec": rk["codec"], "marker": "sync_marker" in rk})
             pending = 0
             last = "reopen"
